@@ -17,6 +17,8 @@ func (db *DB) NewIterator(opts IteratorOptions) *Iterator {
 	db.mu.RLock()
 	indexIter := db.index.Iterator(opts.Reverse)
 	db.mu.RUnlock()
+	// 迭代器存续期间每次移动都会读取前缀, 不得引用调用方的切片
+	opts.Prefix = append([]byte(nil), opts.Prefix...)
 	it := &Iterator{
 		db:        db,
 		indexIter: indexIter,
